@@ -32,6 +32,9 @@ def nontrivial(request, impl):
         return "0a" in parts[2] or "0d" in parts[2]
     if proto == "num":
         return parts[1].startswith("2e")
+    if proto == "block":
+        # non-trivial: a directive, a range or a semicolon is involved
+        return parts[2] != "-" or parts[3] != "-" or "ignore" in parts[4] or ":1:" in parts[4]
     if proto == "expr":
         # non-trivial: the output tree differs from the input tree (some parenthesis decision taken)
         return parts[3] != parts[4]
@@ -111,4 +114,34 @@ PROPS["C02"] = {
     "rule": PIPE_RULE + SLOT_RULE + "ring 2: `expr` correspondence (see C05). distinct_nontrivial as in C05.",
     "trusted_base": ["normal form N: drops parentheses except truncation in multi-value positions, explicit operator grouping, decoded string values, `.5`->`0.5`, call sugar, table separators, semicolons"],
     "assumptions": ["sort_requires off (C12 covers sorting)"],
+}
+
+BLOCK_RULE = ("generated blocks (seeded): 1-5 statements of 11 shapes (local, assignment, call, repeat, do, if, while, function, `(`-prefixed call/assignment, return) written unformatted with unique names, 0-2 leading comment lines drawn from 13 directive spellings (line / block / multi-line block comments, near-miss spellings), optional semicolons and trailing comments, one-line and nested (`do ... end`) layouts, widths {120,60,80,200}; for directive-free programs every statement-aligned range plus open-ended, mid-token, out-of-bounds and inverted ranges. ring 2 (`block` protocol): per statement verbatim/formatted and semicolon bit vs Model/Block.lean. distinct_nontrivial = distinct requests with a directive, a range or a semicolon. ")
+
+PROPS["C08"] = {
+    "lean_modules": ["StyluaModel.Props.C08"],
+    "theorem_prefix": "C08_",
+    "required_theorems": ["C08_region", "C08_single", "C08_verbatim", "C08_others_formatted"],
+    "hx": [["c08"]],
+    "level": "proof",
+    "level_text": "Proof of the block logic: for blocks of any length and any range, exactly the statements in an open `ignore start` region or carrying `stylua: ignore` are skipped, a skipped statement keeps its semicolon and blank lines, statement order is kept. That `format_stmt` returns a skipped statement's own tokens untouched is `stmt.to_owned()` in the code and is checked by the byte-slice oracle, not modelled.",
+    "level_note": "Trusted: Lean kernel; Model/Block.lean mirrors format_block / check_toggle_formatting / should_format_node / check_stmt_requires_semicolon and is tied by the `block` correspondence (~2.5e4 requests per run); the harness classifies directive lines by its own reading of the rule (trimmed line equals the directive text).",
+    "technique": "Lean 4 induction over statement lists + model/implementation correspondence on generated blocks + byte-slice oracle",
+    "rule": BLOCK_RULE + "ring 3: the source slice (with semicolon) of every statement the harness itself classifies as ignored must occur unchanged and in order; every other statement must appear in its formatted form.",
+    "trusted_base": ["table-field ignores are covered by the closed corpus set (inputs-ignore) only"],
+    "assumptions": [],
+}
+
+PROPS["C09"] = {
+    "lean_modules": ["StyluaModel.Props.C09"],
+    "theorem_prefix": "C09_",
+    "required_theorems": ["C09_decide", "C09_inRange", "C09_outside_verbatim", "C09_inside_same", "C09_order"],
+    "hx": [["c08"]],
+    "level": "proof",
+    "level_text": "Proof of the block logic under a range: a statement is formatted iff it lies wholly inside the range, one that does not keeps its semicolon and blank lines, one that does comes out exactly as under whole-file formatting, order is kept — for blocks of any length and all ranges. Byte-level claims (prefix/suffix unchanged, exact text kept) are checked by the oracle on generated programs x all statement-aligned and several unaligned ranges.",
+    "level_note": "Trusted: as C08. A compound statement the range cuts into is exempt from the verbatim clause (statements nested in it may lie wholly inside the range and are formatted by design).",
+    "technique": "Lean 4 induction over statement lists + correspondence + byte-slice oracle over enumerated ranges",
+    "rule": BLOCK_RULE + "ring 3: statements not wholly inside the range keep their exact source slice incl. semicolon; bytes before the first / after the last affected statement unchanged; statements inside equal whole-file formatting; nothing changes when no statement is inside.",
+    "trusted_base": [],
+    "assumptions": ["position of a statement = byte offsets of its first and last token (full_moon positions)"],
 }
